@@ -156,7 +156,7 @@ def _check_closure(run, f, outer):
     mapt = ret[1]
     shp = ("sub", ("attr", mapt, "shape"), ("slice", sym.NONE, num(2), sym.NONE))
     ny, nx = ("item", shp, 0), ("item", shp, 1)
-    ny2, nx2 = ("sub", ("attr", mapt, "shape"), num(0)), ("sub", ("attr", mapt, "shape"), num(1))
+    ny2, nx2 = ("item", ("attr", mapt, "shape"), 0), ("item", ("attr", mapt, "shape"), 1)
     lon_p, lat_p = ("sym", f.params()[0]), ("sym", f.params()[1])
     idx_y, idx_x = ret[2][1]
     # ---- which index is which: by the coordinate it depends on
